@@ -3,10 +3,12 @@
 R04.1 generate_k returns only candidates confined to [1, order-1];
 R04.2 ... and only when retry_gen <= 0; otherwise retry_gen decreases by exactly 1 (the only
       write to it) inside the in-range branch.
-R04.3 HMAC-DRBG typestate: K(V||00||x||h1||extra), V, K(V||01||x||h1||extra), V before the
-      loop; in the loop T is rebuilt from successive V updates until long enough, the
-      candidate is bits2int(T, qlen), and every path that does not return performs
-      K(V||00), V before the next candidate.
+R04.3 HMAC-DRBG trace (checks/c04_drbg.py): generate_k and the private helpers of rfc6979.py
+      are interpreted by sa/small.py on abstract byte strings with every HMAC value a symbolic
+      term; for a grid of scenarios (hash / order sizes, retry counter, rejected candidates,
+      extra entropy) the candidates T and the returned one equal the terms RFC 6979 3.2 / 3.6
+      prescribes: K(V||00||x||h1||extra), V, K(V||01||x||h1||extra), V, then T from successive
+      V updates, bits2int(T, qlen), and K(V||00), V after every candidate that is not returned.
 R04.4 sign_digest_deterministic: generate_k receives (generator.order(), secret multiplier,
       hashfunc, the untruncated digest, retry counter, extra entropy); the loop retries on
       exactly RSZeroError with the counter incremented by 1; sign_digest gets the same digest,
@@ -52,165 +54,10 @@ def _sep_of(expr, vvar):
     return None
 
 
-class DRBG(object):
-    """event extraction from generate_k (syntax-directed, by role)"""
-
-    def __init__(self, f):
-        self.f = f
-        self.kvar = self.vvar = self.tvar = self.bx = None
-        self.find_roles()
-
-    def find_roles(self):
-        for n in ast.walk(self.f.node):
-            if isinstance(n, ast.Assign) and len(n.targets) == 1 and isinstance(n.targets[0], ast.Name):
-                v = n.value
-                # V <- hmac.new(K, V, H).digest()
-                if isinstance(v, ast.Call) and isinstance(v.func, ast.Attribute) and v.func.attr == "digest" and isinstance(v.func.value, ast.Call) \
-                        and _callee(v.func.value) == "hmac.new" and len(v.func.value.args) >= 2 and _name(v.func.value.args[1]) == n.targets[0].id:
-                    self.vvar = n.targets[0].id
-                    self.kvar = _name(v.func.value.args[0])
-            u = as_update(n) if isinstance(n, (ast.AugAssign, ast.Assign)) else None
-            if u and u[1] is ast.Add and isinstance(u[0], ast.Name) and isinstance(u[2], ast.Name):
-                self.tvar = (u[0].id, u[2].id)
-            if isinstance(n, ast.For) and isinstance(n.iter, ast.Name):
-                self.bx = n.iter.id
-        # T by role: the octets the candidate is taken from (first argument of bits2int)
-        cand = {_name(n.args[0]) for n in ast.walk(self.f.node) if isinstance(n, ast.Call) and _callee(n) == "bits2int" and n.args and _name(n.args[0])}
-        if len(cand) == 1:
-            self.tvar = (cand.pop(), self.vvar)
-        if not (self.kvar and self.vvar and self.tvar and self.tvar[1] == self.vvar):
-            raise AnalysisError("generate_k: cannot identify the K / V / T variables of the DRBG")
-        self.tvar = self.tvar[0]
-
-    def events(self, stmts):
-        ev = []
-        for s in stmts:
-            ev.extend(self.event(s))
-        return ev
-
-    def event(self, s):
-        K, V, T = self.kvar, self.vvar, self.tvar
-        if isinstance(s, ast.Assign) and len(s.targets) == 1 and isinstance(s.targets[0], ast.Name):
-            tgt, v = s.targets[0].id, s.value
-            if tgt == K and isinstance(v, ast.Call) and _callee(v) == "hmac.new" and v.args and _name(v.args[0]) == K and len(v.args) == 1:
-                return [("K-begin",)]
-            if tgt == K and isinstance(v, ast.Call) and isinstance(v.func, ast.Attribute) and v.func.attr == "digest":
-                inner = v.func.value
-                if _name(inner) == K:
-                    return [("K-end",)]
-                if isinstance(inner, ast.Call) and _callee(inner) == "hmac.new" and len(inner.args) >= 2 and _name(inner.args[0]) == K:
-                    sep = _sep_of(inner.args[1], V)
-                    if sep is not None:
-                        return [("K-begin",), ("K-sep", sep), ("K-end",)]
-            if tgt == V and isinstance(v, ast.Call) and isinstance(v.func, ast.Attribute) and v.func.attr == "digest" and isinstance(v.func.value, ast.Call) \
-                    and _callee(v.func.value) == "hmac.new" and len(v.func.value.args) >= 2 and _name(v.func.value.args[0]) == K and _name(v.func.value.args[1]) == V:
-                return [("V",)]
-            if tgt == T and isinstance(v, ast.Constant) and v.value == b"":
-                return [("T-reset",)]
-            if isinstance(v, ast.Call) and _callee(v) == "bits2int" and v.args and _name(v.args[0]) == T:
-                return [("candidate", tgt)]
-            if tgt in (K, V):
-                return [("other-write", tgt, norm_text(s))]
-            return []
-        if isinstance(s, ast.Expr) and isinstance(s.value, ast.Call) and isinstance(s.value.func, ast.Attribute) and s.value.func.attr == "update" \
-                and _name(s.value.func.value) == K and s.value.args:
-            sep = _sep_of(s.value.args[0], V)
-            if sep is not None:
-                return [("K-sep", sep)]
-            return [("K-feed-other", norm_text(s))]
-        if isinstance(s, ast.For) and _name(s.iter) == self.bx and len(s.body) == 1:
-            b = s.body[0]
-            if isinstance(b, ast.Expr) and isinstance(b.value, ast.Call) and isinstance(b.value.func, ast.Attribute) and b.value.func.attr == "update" \
-                    and _name(b.value.func.value) == K and b.value.args and _name(b.value.args[0]) == _name(s.target):
-                return [("K-feed-bx",)]
-        u_ = as_update(s) if isinstance(s, (ast.AugAssign, ast.Assign)) else None
-        if u_ and _name(u_[0]) == T and _name(u_[2]) == V and u_[1] is ast.Add:
-            return [("T-append",)]
-        if isinstance(s, ast.While):
-            return [("while", norm_text(s.test), self.events(s.body))]
-        if isinstance(s, ast.If):
-            return [("if", norm_text(s.test), self.events(s.body), self.events(s.orelse))]
-        if isinstance(s, ast.Return):
-            return [("return", norm_text(s.value) if s.value else None)]
-        if isinstance(s, (ast.AugAssign, ast.Assign)):
-            names = {x.id for x in ast.walk(s) if isinstance(x, ast.Name) and isinstance(x.ctx, ast.Store)}
-            if names & {K, V, T}:
-                return [("other-write", sorted(names & {K, V, T})[0], norm_text(s))]
-        return []
-
-
-def check_drbg(chk, W):
-    f = W.p.func("rfc6979:generate_k")
-    d = DRBG(f)
-    ev = d.events(f.node.body)
-    loops = [e for e in ev if e[0] == "while"]
-    if len(loops) != 1:
-        raise AnalysisError("generate_k: expected exactly one outer DRBG loop, found %d" % len(loops))
-    pre = [e for e in ev[:ev.index(loops[0])] if e[0] not in ("if", "other-write")]
-    kupd = lambda sep, feed: [("K-begin",), ("K-sep", sep)] + ([("K-feed-bx",)] if feed else []) + [("K-end",)]
-    want_pre = kupd(0, True) + [("V",)] + kupd(1, True) + [("V",)]
-    chk.ob("R04.3", "before the loop: K<-HMAC(V||00||bx), V<-, K<-HMAC(V||01||bx), V<-", pre == want_pre, loc=W.p.loc("rfc6979", f.node),
-           key="C04|R04.3|pre", detail="DRBG initialisation events are %s, expected %s" % (pre, want_pre))
-    body = loops[0][2]
-    # T reset, inner loop, candidate, guard, K(00) no feed, V
-    flat = [e for e in body if e[0] != "if"]
-    inner = [e for e in flat if e[0] == "while"]
-    ok_loop = len(inner) == 1 and [x for x in inner[0][2]] == [("V",), ("T-append",)] and d.tvar in inner[0][1]
-    rest = [e for e in flat if e[0] != "while"]
-    want_rest = [("T-reset",), ("candidate", rest[1][1] if len(rest) > 1 and rest[1][0] == "candidate" else "?")] + kupd(0, False) + [("V",)]
-    ok_loop &= rest == want_rest
-    # order: T-reset before inner loop before candidate; reseed after the guard
-    order = [e[0] for e in body]
-    try:
-        ok_loop &= order.index("T-reset") < order.index("while") < order.index("candidate") < order.index("if") < order.index("K-begin")
-    except ValueError:
-        ok_loop = False
-    chk.ob("R04.3", "in the loop: T reset; (V<-; T+=V) until long enough; candidate = bits2int(T, qlen); then K<-HMAC(V||00), V<- on every non-returning path",
-           ok_loop, loc=W.p.loc("rfc6979", f.node), key="C04|R04.3|loop", detail="DRBG loop events are %s" % (body,))
-    # the guard if contains no writes to K/V/T
-    guards = [e for e in body if e[0] == "if"]
-    okg = len(guards) == 1 and not any(x[0] in ("other-write", "K-begin", "V", "T-append", "T-reset") for x in _flatten(guards[0][2]) + _flatten(guards[0][3]))
-    chk.ob("R04.3", "the acceptance guard does not touch K, V or T", okg, loc=W.p.loc("rfc6979", f.node), key="C04|R04.3|guard-pure", detail="the candidate guard modifies the DRBG state")
-    others = [e for e in _flatten(ev) if e[0] in ("other-write", "K-feed-other")]
-    # initial constants V = 01.., K = 00.. are the only other writes
-    init = [e for e in others if e[0] == "other-write"]
-    okinit = len(init) == 2 and any("\\x01" in e[2] and e[1] == d.vvar for e in init) and any("\\x00" in e[2] and e[1] == d.kvar for e in init)
-    chk.ob("R04.3", "V and K start as 0x01.. / 0x00.. blocks and have no other writers", okinit and not [e for e in others if e[0] == "K-feed-other"], loc=W.p.loc("rfc6979", f.node),
-           key="C04|R04.3|init", detail="unexpected writes to the DRBG state: %s" % (others,))
-    # bx = (x, h1, extra) in that order
-    okbx = False
-    params = f.params
-    for n in ast.walk(f.node):
-        if isinstance(n, ast.Assign) and _name(n.targets[0]) == d.bx and isinstance(n.value, ast.Tuple) and len(n.value.elts) == 3:
-            els = []
-            for e in n.value.elts:
-                while isinstance(e, ast.Call) and _callee(e) == "hmac_compat" and e.args:
-                    e = e.args[0]
-                els.append(e)
-            a, b, c = els
-            okbx = (isinstance(a, ast.Call) and _callee(a) == "number_to_string" and [_name(x) for x in a.args] == [params[1], params[0]]
-                    and isinstance(b, ast.Call) and _callee(b) == "bits2octets" and [_name(x) for x in b.args] == [params[3], params[0]]
-                    and _name(c) == params[5])
-    chk.ob("R04.3", "additional input = (int2octets(x), bits2octets(h1), extra entropy) in that order", okbx, loc=W.p.loc("rfc6979", f.node), key="C04|R04.3|bx", detail="the tuple fed into both K updates is not (number_to_string(secexp, order), bits2octets(data, order), extra_entropy)")
-    return d
-
-
-def _flatten(ev):
-    out = []
-    for e in ev:
-        out.append(e)
-        if e[0] == "while":
-            out.extend(_flatten(e[2]))
-        elif e[0] == "if":
-            out.extend(_flatten(e[2]))
-            out.extend(_flatten(e[3]))
-    return out
-
-
 def run(chk):
     chk.rule("R04.1", "generate_k returns only values in [1, order-1]")
     chk.rule("R04.2", "a candidate is returned only when retry_gen <= 0; the only write to retry_gen is a decrement by 1 in the in-range branch")
-    chk.rule("R04.3", "HMAC-DRBG event order (typestate over resolved hmac.new/update/digest events)")
+    chk.rule("R04.3", "HMAC-DRBG trace on abstract scenarios equals the RFC 6979 sequence of HMAC terms")
     chk.rule("R04.4", "sign_digest_deterministic: argument forwarding to generate_k / sign_digest, retry on exactly RSZeroError with +1")
     chk.rule("R04.5", "no nondeterminism source reachable; randrange never called on the deterministic path")
     chk.configs = ["py3"]
@@ -255,7 +102,8 @@ def run(chk):
     bad = sorted({r.exc for r in raises} - {"AssertionError"})
     chk.ob("R04.1", "generate_k: no exception other than number_to_string's size assert", not bad, loc=q, key="C04|R04.1|escape", detail="may raise %s" % bad)
 
-    check_drbg(chk, W)
+    from . import c04_drbg
+    c04_drbg.rule(chk, W)
 
     # ---------------- R04.4
     q2 = "keys:SigningKey.sign_digest_deterministic"
